@@ -275,10 +275,24 @@ def _run_case(conns, case) -> dict:
                 vals = [None if v is None else Decimal(v) for v in vals]      # exact objects; bare ints beyond int64 cannot be put in a dataframe/parquet column
             df = pd.DataFrame({"k w": [f"kw{i}" for i in range(len(vals))], "ID": list(range(1, len(vals) + 1)),
                                "C": pd.Series(list(vals), dtype=None if fam not in ("json", "text", "binary", "bool", "number", "date", "time", "tz") else object)})
-            ok, nchunks, nrows, _ = pt.write_pandas(conn, df, "T")
+            kw = dict(case.get("wp_kwargs") or {})
+            if kw.get("chunk_size") == "len-1":
+                kw["chunk_size"] = max(1, len(df) - 1)
+            elif kw.get("chunk_size") == "len":
+                kw["chunk_size"] = len(df)
+            elif kw.get("chunk_size") == "len+1":
+                kw["chunk_size"] = len(df) + 1
+            if kw.get("auto_create_table"):
+                # the table is created by write_pandas itself (its column list is not quoted, so no `"k w"` column here)
+                cur.execute("drop table T")
+                df = df[["ID", "C"]]
+            ok, nchunks, nrows, _ = pt.write_pandas(conn, df, "T", **kw)
             out["wp"] = [bool(ok), int(nrows)]
-            cur.execute('select "k w" from T order by id')
-            out["kw"] = [r[0] for r in cur.fetchall()]
+            if kw.get("auto_create_table"):
+                out["kw"] = [f"kw{i}" for i in range(len(vals))]
+            else:
+                cur.execute('select "k w" from T order by id')
+                out["kw"] = [r[0] for r in cur.fetchall()]
         if path == "insert-select":
             cur.execute(f"create or replace table T {tgt_cols}")
             cur.execute("insert into T select * from S")
@@ -381,6 +395,80 @@ NOP_REGEXES = [r"CALL\s", r"GRANT\s"]        # un-anchored: `re.match` applies t
 NOP_TEXT = ["remember to call Bob", "grant approved", "CALL me maybe", "recall\tGRANT x", "they call\nus", "I grant  you"]
 
 
+def _run_ctx(conns, case) -> dict:
+    """USE SCHEMA s; USE DATABASE other; USE SCHEMA s (same text) — then an unqualified write must land in OTHER.s, nowhere else"""
+    import pandas as pd
+    import snowflake.connector.pandas_tools as pt
+    conn = conns["py"]
+    cur = conn.cursor()
+    path, vals = case["path"], case["vals"]
+    out = {"err": None}
+    try:
+        cur.execute("create database if not exists DBX")
+        cur.execute("create schema if not exists DBX.S1")
+        cur.execute("use database DB2")
+        cur.execute("use schema S1")
+        for db in ("DB2", "DBX"):
+            cur.execute(f"create or replace table {db}.S1.W (id int, c varchar)")
+            cur.execute(f"create or replace table {db}.S1.SRC (id int, c varchar)")
+            cur.execute(f"drop table if exists {db}.S1.W2")
+        cur.execute("insert into DB2.S1.SRC values (900, 'src-of-db2')")
+        for i, v in enumerate(vals):
+            cur.execute(f"insert into DBX.S1.SRC values ({i + 1}, {_literal('VARCHAR', v)})")
+        cur.execute("use schema S1")          # same text as below, while the current database is DB2
+        cur.execute("use database DBX")
+        cur.execute("use schema S1")          # must now mean DBX.S1
+        cur.execute("select current_database(), current_schema()")
+        out["ctx"] = list(cur.fetchall()[0])
+        out["conn_ctx"] = [conn.database, conn.schema]
+        tgt = "W"
+        if path == "literal":
+            for i, v in enumerate(vals):
+                cur.execute(f"insert into W values ({i + 1}, {_literal('VARCHAR', v)})")
+        elif path == "pyformat":
+            for i, v in enumerate(vals):
+                cur.execute("insert into W values (%s, %s)", (i + 1, v))
+        elif path == "insert-select":
+            cur.execute("insert into W select * from SRC")
+        elif path == "ctas":
+            cur.execute("create table W2 as select * from SRC")
+            tgt = "W2"
+        elif path == "write_pandas":
+            pt.write_pandas(conn, pd.DataFrame({"ID": list(range(1, len(vals) + 1)), "C": pd.Series(list(vals), dtype=object)}), "W")
+        for key, q in (("landed", f"select id, c from DBX.S1.{tgt} order by id"), ("other", f"select id, c from DB2.S1.{tgt} order by id")):
+            try:
+                cur.execute(q)
+                out[key] = [[r[0], _canon(r[1])] for r in cur.fetchall()]
+            except Exception as e:
+                out[key] = ["missing", type(e).__name__]
+    except Exception as e:
+        out["err"] = [type(e).__name__, str(e)[:200]]
+    finally:
+        try:
+            cur.execute("use database DB2")
+            cur.execute("use schema S1")
+        except Exception:
+            pass
+    return out
+
+
+def _check_ctx(chk, case, real):
+    chk.count("ctx:" + case["path"])
+    chk.case(("ctx", case["path"], repr(case["vals"])), nontrivial=True)
+    rcase = {"kind": "ctx", "path": case["path"], "vals": case["vals"]}
+    what = f"USE SCHEMA S1; USE DATABASE DBX; USE SCHEMA S1; then {case['path']} write of {case['vals']!r} into the unqualified table"
+    exp = [[i + 1, _canon(v)] for i, v in enumerate(case["vals"])]
+    other_exp = ["missing", "ProgrammingError"] if case["path"] == "ctas" else []
+    if real["err"] is not None:
+        chk.violation(f"{what}: {real['err'][0]}: {real['err'][1]}", rcase, broken="C01 rows land in the current schema only (context resolution: C03)")
+    elif real["ctx"] != ["DBX", "S1"] or real["conn_ctx"] != ["DBX", "S1"]:
+        chk.violation(f"{what}: current_database()/current_schema() = {real['ctx']}, conn = {real['conn_ctx']}, expected DBX.S1", rcase,
+                      broken="C01 rows land in the current schema only (context resolution: C03)")
+    elif real["landed"] != exp or real["other"] != other_exp:
+        chk.violation(f"{what}: DBX.S1 holds {real['landed']} (expected {exp}), the same-named table in DB2.S1 holds {real['other']} (expected {other_exp})", rcase,
+                      broken="C01 every written row exactly once and no other table changes (context resolution: C03)")
+
+
 def _run_persist(case) -> dict:
     """write through one instance with db_path, read back through a second instance that spells the database differently"""
     import shutil
@@ -432,9 +520,9 @@ def _worker(shard):
             conns = {"py": snowflake.connector.connect(database="DB2", schema="S1"), "qmark": q}
             for i in idx:
                 case = shard[i]
-                res[i] = _run_copy(conns, case) if case["kind"] == "copy" else _run_case(conns, case)
+                res[i] = _run_copy(conns, case) if case["kind"] == "copy" else (_run_ctx(conns, case) if case["kind"] == "ctx" else _run_case(conns, case))
 
-    phase([i for i, c in enumerate(shard) if c["kind"] in ("value", "copy") and not c.get("nop")])
+    phase([i for i, c in enumerate(shard) if c["kind"] in ("value", "copy", "ctx") and not c.get("nop")])
     # an instance configured with un-anchored nop_regexes: only statements that START with a match are no-ops
     phase([i for i, c in enumerate(shard) if c.get("nop")], nop_regexes=NOP_REGEXES)
     for i, c in enumerate(shard):
@@ -472,6 +560,11 @@ def _cases(chk, rnd) -> list[dict]:
                 if nullpos is not None:
                     vals.insert(nullpos, None)
                 case = {"kind": "value", "ty": ty, "path": path, "vals": vals}
+                if path == "write_pandas":
+                    # documented keyword options fakesnow accepts; every row must arrive whatever the chunking
+                    case["wp_kwargs"] = {"chunk_size": rnd.choice([1, 2, 3, "len-1", "len", "len+1", None])}
+                    if rnd.random() < 0.3:
+                        case["wp_kwargs"].update(rnd.choice([{"quote_identifiers": True}, {"parallel": 1}, {"compression": "snappy"}, {"on_error": "continue"}]))
                 if dollar:
                     case["setvar"] = rnd.choice([True, True, False])     # a session variable `amount` is SET on the connection / not set
                 cases.append(case)
@@ -486,6 +579,13 @@ def _cases(chk, rnd) -> list[dict]:
                     vals = _values(rnd, ty, 4, nop=fam == "text")
                 vals.insert(rnd.randrange(len(vals) + 1), None)
                 cases.append({"kind": "value", "ty": ty, "path": path, "vals": vals, "nop": True})
+    # context slice: the same `USE SCHEMA` text before and after `USE DATABASE`, then an unqualified write per path
+    for path in ("literal", "pyformat", "insert-select", "ctas", "write_pandas"):
+        for rep in range(1 if chk.tier == "quick" else 3):
+            cases.append({"kind": "ctx", "path": path, "vals": [rnd.choice(["a", "é😀", "it's", "x" * 50]) for _ in range(rnd.randint(1, 3))]})
+    # auto_create_table with chunking
+    for cs in (1, 2, None):
+        cases.append({"kind": "value", "ty": "VARCHAR", "path": "write_pandas", "vals": _values(rnd, "VARCHAR", 5), "wp_kwargs": {"chunk_size": cs, "auto_create_table": True}})
     # HTTP read slice: written and read back through fakesnow.server.app with the real connector (wire encoding itself: C17)
     for ty in ("TIMESTAMP_NTZ", "TIMESTAMP_TZ", "TIME", "DATE", "NUMBER(38,10)", "NUMBER(12,12)", "FLOAT", "VARCHAR"):
         for rep in range(1 if chk.tier == "quick" else 4):
@@ -556,6 +656,9 @@ def _check_value(chk, case, real, tyrep, fitreps):
     rcase = {"kind": "value", "ty": ty, "path": path, "vals": [_ser(v) for v in vals]}
     if case.get("nop"):
         rcase["nop"] = True
+    if case.get("wp_kwargs"):
+        rcase["wp_kwargs"] = case["wp_kwargs"]
+        chk.count("write_pandas:chunk_size=" + str(case["wp_kwargs"].get("chunk_size")))
     if "setvar" in case:
         rcase["setvar"] = case["setvar"]
         chk.count("dollar-text:" + ("var-set" if case["setvar"] else "var-unset"))
@@ -737,7 +840,7 @@ def _enc_rows(rows) -> str:
 def _model_lines(cases):
     lines, idx = [], []
     for c in cases:
-        if c["kind"] == "persist":
+        if c["kind"] in ("persist", "ctx"):
             idx.append((len(lines), 0))
             continue
         if c["kind"] == "copy":
@@ -767,7 +870,9 @@ def run(chk) -> None:
         lines, idx = _model_lines(shard)
         reps = common.batch(lines)
         for case, real, (start, n) in zip(shard, rs, idx):
-            if case["kind"] == "persist":
+            if case["kind"] == "ctx":
+                _check_ctx(chk, case, real)
+            elif case["kind"] == "persist":
                 _check_persist(chk, case, real)
             elif case["kind"] == "copy":
                 _check_copy(chk, case, real, reps[start])
@@ -787,7 +892,9 @@ def run(chk) -> None:
 def replay(chk, case) -> None:
     from props import c17
     c17._real_connect()
-    if case.get("kind") == "persist":
+    if case.get("kind") == "ctx":
+        _check_ctx(chk, case, _worker([case])[0])
+    elif case.get("kind") == "persist":
         c = dict(case, vals=[_deser(v) for v in case["vals"]])
         _check_persist(chk, c, _worker([c])[0])
     elif case.get("kind") == "copy":
@@ -800,6 +907,8 @@ def replay(chk, case) -> None:
             c["setvar"] = case["setvar"]
         if case.get("nop"):
             c["nop"] = True
+        if case.get("wp_kwargs"):
+            c["wp_kwargs"] = case["wp_kwargs"]
         real = _worker([c])[0]
         lines, idx = _model_lines([c])
         reps = common.batch(lines)
